@@ -13,8 +13,8 @@
      match        the scrutinee has any type; literal patterns need a number, constructor patterns a sum type (payload
                   patterns bind at the payload type), tuple patterns a tuple componentwise, `_` anything; all arms have the
                   same type; the match is EXHAUSTIVE: an irrefutable arm (`_`, or a tuple pattern of `_`s), or the scrutinee
-                  is a sum value and every constructor has an arm (typing.rs check_match_exhaustiveness on sum types; on
-                  numbers and tuples the real checker asks for nothing: lenient configuration)
+                  is a sum value and every constructor has an arm (typing.rs check_match_exhaustiveness on sum types and,
+                  since the repair of T7, on numbers; on tuples the real checker asks for nothing: lenient configuration)
      if           the condition is a number, both arms have the same type
      let          the pattern is matched against the type of the bound expression (a record pattern may name a subset of the
                   fields); the binders are variables of the parts' types
@@ -130,21 +130,16 @@ Definition spread (pts : list ty) (rt : ty) (ats : list ty) : option ty :=
   end.
 
 (* ---- match ---- *)
-(* a pattern that binds no variable *)
-Fixpoint mpat_nobind (m : mpat) : bool :=
+(* the binders of a match pattern against a scrutinee of type t, in front of G (mirrors Lmmx.mbind; typing.rs
+   check_match_pattern_type, called for every arm before the arm is typed: a literal pattern needs a number, a tuple pattern a
+   tuple of the same width — element by element —, a constructor pattern a scrutinee of a sum type that has the constructor, an
+   inner pattern a constructor that carries a value).  BOTH configurations: since the repair of finding T8 (typing.rs c082721)
+   the real checker compares every pattern with the type it meets, so there is no lenient variant of this function any more.
+   What is left of T8 (a bare identifier that is no declared constructor, in a tuple pattern over a scrutinee whose type is not
+   yet known) needs a scrutinee WITHOUT a type, which this annotation-driven checker does not have. *)
+Fixpoint tc_mpat (m : mpat) (t : ty) (G : tenv) {struct m} : option tenv :=
   match m with
-  | MLit _ | MWild => true
-  | MCon _ p => match p with None => true | Some _ => false end
-  | MTup ms => forallb (fun x => mpat_nobind x) ms
-  end.
-
-(* the binders of a match pattern against a scrutinee of type t, in front of G (mirrors Lmmx.mbind).  `len`: the lenient
-   configuration (typing.rs drops the unification error of a literal pattern, zips a tuple pattern with the component types
-   whatever their number, and never compares a constructor / tuple pattern with the type it meets) lets a literal pattern meet
-   any scrutinee, a tuple pattern a tuple of another width, and a pattern without binders anything *)
-Fixpoint tc_mpat (len : bool) (m : mpat) (t : ty) (G : tenv) {struct m} : option tenv :=
-  match m with
-  | MLit _ => match t with TNum => Some G | _ => if len then Some G else None end
+  | MLit _ => match t with TNum => Some G | _ => None end
   | MWild => Some G
   | MCon tag p =>
       match t with
@@ -153,9 +148,9 @@ Fixpoint tc_mpat (len : bool) (m : mpat) (t : ty) (G : tenv) {struct m} : option
           | Some None, None => Some G
           | Some (Some _), None => Some G
           | Some (Some t'), Some q => tc_pat q t' G
-          | _, _ => if len && mpat_nobind m then Some G else None
+          | _, _ => None
           end
-      | _ => if len && mpat_nobind m then Some G else None
+      | _ => None
       end
   | MTup ms =>
       match t with
@@ -163,10 +158,10 @@ Fixpoint tc_mpat (len : bool) (m : mpat) (t : ty) (G : tenv) {struct m} : option
           (fix go (ms : list mpat) (ts : list ty) (G : tenv) : option tenv :=
              match ms, ts with
              | [], [] => Some G
-             | m :: ms', t :: ts' => match tc_mpat len m t G with Some G' => go ms' ts' G' | None => None end
-             | _, _ => if len then Some G else None
+             | m :: ms', t :: ts' => match tc_mpat m t G with Some G' => go ms' ts' G' | None => None end
+             | _, _ => None
              end) ms ts G
-      | _ => if len && mpat_nobind m then Some G else None
+      | _ => None
       end
   end.
 
@@ -188,10 +183,13 @@ Definition exhaustive (t : ty) (ms : list mpat) : bool :=
   | _ => false
   end.
 
-(* lenient (typing.rs check_match_exhaustiveness): only a sum-typed scrutinee is checked; `_` and ANY tuple pattern count as
-   covering everything *)
+(* lenient (typing.rs check_match_exhaustiveness): a NUMBER scrutinee needs a `_` arm (since the repair of finding T7 for
+   numbers, typing.rs 027af85: no finite list of literals covers the numbers); on a sum-typed scrutinee `_` and ANY tuple
+   pattern count as covering everything, otherwise every constructor needs an arm; nothing else is checked — in particular a
+   match on a TUPLE needs no `_` arm (what is left of T7) *)
 Definition exhaustive_len (t : ty) (ms : list mpat) : bool :=
   match t with
+  | TNum => existsb (fun m => match m with MWild => true | _ => false end) ms
   | TSum _ cs =>
       existsb (fun m => match m with MWild | MTup _ => true | _ => false end) ms ||
       forallb (fun tag => existsb (is_con_of tag) ms) (seq 0 (length cs))
@@ -312,6 +310,9 @@ Section Tc.
                 | Some ta => if an_teq an t ta then Some (TSum tn cs) else None
                 | None => None
                 end
+            (* lenient: typing.rs takes a constructor that carries a payload, written without it, for a function value
+               (what is left of finding T9; the backends cannot compile it) *)
+            | Some (Some t), None => if an_len an then Some (TFn [t] (TSum tn cs)) else None
             | _, _ => None
             end
         | None => None
@@ -323,15 +324,16 @@ Section Tc.
                      match l with
                      | [] => Some []
                      | a :: l' =>
-                         match tc_mpat (an_len an) (fst a) ts G with
+                         match tc_mpat (fst a) ts G with
                          | Some G' => match tc G' (snd a), go l' with Some t, Some tl => Some (t :: tl) | _, _ => None end
                          | None => None
                          end
                      end) arms with
             | Some (t :: tl) =>
-                if an_len an
-                then (if exhaustive_len ts (map fst arms) then Some t else None)
-                else (if forallb (an_teq an t) tl && exhaustive ts (map fst arms) then Some t else None)
+                (* all arms have the type of the first (typing.rs since the repair of finding T6, ac0109c: the error of
+                   unify_types(first, arm) is returned; in the lenient configuration `an_teq` is unification up to T0) *)
+                if forallb (an_teq an t) tl && (if an_len an then exhaustive_len ts (map fst arms) else exhaustive ts (map fst arms))
+                then Some t else None
             | _ => None
             end
         | None => None
@@ -339,12 +341,12 @@ Section Tc.
     end.
 
   (* the types of the arms of a match on a scrutinee of type ts (the inner loop of tc on XMatch) *)
-  Definition tc_arms (len : bool) (G : tenv) (ts : ty) : list (mpat * xexpr) -> option (list ty) :=
+  Definition tc_arms (G : tenv) (ts : ty) : list (mpat * xexpr) -> option (list ty) :=
     fix go (l : list (mpat * xexpr)) : option (list ty) :=
       match l with
       | [] => Some []
       | a :: l' =>
-          match tc_mpat len (fst a) ts G with
+          match tc_mpat (fst a) ts G with
           | Some G' => match tc G' (snd a), go l' with Some t, Some tl => Some (t :: tl) | _, _ => None end
           | None => None
           end
@@ -434,7 +436,12 @@ End Tc.
    width; so the operands of every binary operator (a two-argument call) may have any type, and arithmetic on tuples is
    a feature (broadcasting), as is the application of a number -> number function to a tuple (auto spread); the operands of
    delay, the outputs of dsp and the default values of parameters are not checked.  A program the real checker accepts must at least be accepted
-   in this configuration (up to the kinds of mutation listed in checks/lmmt_part.py TOLERATED). ---- *)
+   in this configuration (up to the kinds of mutation listed in checks/lmmt_part.py TOLERATED).
+   MATCH follows the repaired typing.rs (findings T6, T8, T7 on numbers, T9 on scrutinees): the patterns are checked against the
+   scrutinee type exactly as in the strict configuration (tc_mpat has no lenient variant), the arms must have the type of the first arm
+   (up to `ty_sim`), a match on a number needs a `_` arm; lenient is only what typing.rs still lets through: a match on a TUPLE needs
+   no `_` arm, on a sum type any tuple pattern counts as `_` (T7), and a constructor that carries a payload, written without it, is a
+   function value payload -> sum type (T9; as the scrutinee of a match it is therefore rejected by the patterns). ---- *)
 Definition ty_sim (a b : ty) : bool :=
   match a, b with
   | TNum, TNum => true
